@@ -204,44 +204,68 @@ def _observe_link(built: Built, level: Level, handle, mnode: M.MNode, step: Dict
     M.attach(level.mnodes, mnode, level.mnodes[j], M.FB)
 
 
-def _build_level(bp: Dict[str, Any], built: Built, stack: List[Level], path: Tuple[int, ...]) -> Level:
-    from qce_circuit.language.declarative_circuit import DeclarativeCircuit
+def _add_step(built: Built, level: Level, stack: List[Level], i: int, step: Dict[str, Any]):
+    """Execute one step on ``level`` (``stack`` ends with ``level``) and observe the installed link."""
     from qce_circuit.structure.intrf_circuit_operation import RelationLink, RelationType
     ctx = built.ctx
-    circuit = DeclarativeCircuit(repetition_strategy=_repetition_strategy(bp.get("reps", 1), ctx))
+    circuit = level.circuit
+    path = level.path
+    if "sub" in step:
+        child = _build_level(step["sub"], built, stack, path + (i,))
+        handle = circuit.add(child.circuit)
+        mnode = M.MNode(is_block=True, sub=child.mnodes, reps=step["sub"].get("reps", 1), kind="<block>")
+        level.children.append(child)
+        built.count("blocks")
+        if handle is child.circuit.circuit_structure:
+            built.link_violations.append({"path": list(path), "idx": i, "kind": "sub", "what": "add returned the original sub-circuit, not a copy"})
+    else:
+        rel = step.get("rel")
+        relation = None
+        if rel is not None:
+            relation = RelationLink(level.handles[rel[1]], RelationType[rel[0]])
+        op = make_op(step, ctx, stack, relation)
+        handle = circuit.add(op)
+        if handle is not op:
+            built.link_violations.append({"path": list(path), "idx": i, "kind": step["k"], "what": "add did not return the added operation"})
+        mnode = mnode_of(step)
+        level.children.append(None)
+        built.count("leaves")
+        built.count("kind_" + step["k"])
+    try:
+        last = circuit.get_last_entry()
+    except Exception as exc:  # pragma: no cover
+        last = exc
+    if last is not handle:
+        built.link_violations.append({"path": list(path), "idx": i, "kind": step.get("k", "sub"), "what": "get_last_entry() is not the handle returned by the last add"})
+    _observe_link(built, level, handle, mnode, step)
+    level.handles.append(handle)
+    return handle
+
+
+def _build_level(bp: Dict[str, Any], built: Built, stack: List[Level], path: Tuple[int, ...]) -> Level:
+    from qce_circuit.language.declarative_circuit import DeclarativeCircuit
+    circuit = DeclarativeCircuit(repetition_strategy=_repetition_strategy(bp.get("reps", 1), built.ctx))
     level = Level(bp, circuit, path)
     stack = stack + [level]
     for i, step in enumerate(bp["steps"]):
-        if "sub" in step:
-            child = _build_level(step["sub"], built, stack, path + (i,))
-            handle = circuit.add(child.circuit)
-            mnode = M.MNode(is_block=True, sub=child.mnodes, reps=step["sub"].get("reps", 1), kind="<block>")
-            level.children.append(child)
-            built.count("blocks")
-            if handle is child.circuit.circuit_structure:
-                built.link_violations.append({"path": list(path), "idx": i, "kind": "sub", "what": "add returned the original sub-circuit, not a copy"})
-        else:
-            rel = step.get("rel")
-            relation = None
-            if rel is not None:
-                relation = RelationLink(level.handles[rel[1]], RelationType[rel[0]])
-            op = make_op(step, ctx, stack, relation)
-            handle = circuit.add(op)
-            if handle is not op:
-                built.link_violations.append({"path": list(path), "idx": i, "kind": step["k"], "what": "add did not return the added operation"})
-            mnode = mnode_of(step)
-            level.children.append(None)
-            built.count("leaves")
-            built.count("kind_" + step["k"])
-        try:
-            last = circuit.get_last_entry()
-        except Exception as exc:  # pragma: no cover
-            last = exc
-        if last is not handle:
-            built.link_violations.append({"path": list(path), "idx": i, "kind": step.get("k", "sub"), "what": "get_last_entry() is not the handle returned by the last add"})
-        _observe_link(built, level, handle, mnode, step)
-        level.handles.append(handle)
+        _add_step(built, level, stack, i, step)
     return level
+
+
+def start(program: Dict[str, Any], ctx: Optional[Ctx] = None) -> Built:
+    """Begin an incremental build: an empty top-level circuit; steps are added with :func:`add_step`."""
+    ctx = ctx or Ctx(program.get("settings"))
+    built = Built(program, ctx, None)  # type: ignore
+    built.top = _build_level({"reps": program["circuit"].get("reps", 1), "steps": []}, built, [], ())
+    built.top.bp = {"reps": program["circuit"].get("reps", 1), "steps": []}
+    return built
+
+
+def add_step(built: Built, step: Dict[str, Any]):
+    level = built.top
+    i = len(level.handles)
+    level.bp["steps"].append(step)
+    return _add_step(built, level, [level], i, step)
 
 
 def build(program: Dict[str, Any], ctx: Optional[Ctx] = None) -> Built:
